@@ -77,13 +77,28 @@ out += ["What the misses of the first round had in common, and what was added (s
 "",
 "### 8.2 The reverse of every repair",
 "",
-"`tools/reverse_all.sh` undoes each `fix:` commit (or pair of commits) of /repo on a scratch copy and runs the check of the property it is recorded under:",
+"`tools/reverse_all.sh` undoes each `fix:` commit (or pair of commits) of /repo in a scratch clone (`git revert`, a three-way merge) and runs the check of the property it is recorded under. Run at the final tree:",
 "", "```"]
 rv = os.path.join(R, "seeded", "REVERSE.log")
 if os.path.exists(rv):
     out += [l.rstrip() for l in open(rv) if l.startswith(("CAUGHT", "MISSED", "SKIP"))]
-out += ["```", "", "### 8.3 Benign variants (must stay silent)", "",
-"`tools/benign_all.sh` applies each patch under `mutants/benign/` and runs all twenty checks: reworded error messages; call depth limit 3000, evaluation nesting 30000 and array fill limit 1 500 000 (all inside the bands); object keys printed and iterated in reverse-sorted instead of sorted order; print assembling its line and writing it once, slices.Sort for the keys; a regex cache keyed by pattern text and padding that grows the array once.",
+out += ["```", "",
+"SKIP / INVALID: later repairs rewrote the same lines (or build on what the commit introduced), so the commit no longer reverts mechanically. Twelve of those sixteen were reverted and caught when the tree still allowed it (`seeded/REVERSE-earlier.log`, run at 6a498f0 or before):",
+"", "```"]
+rve = os.path.join(R, "seeded", "REVERSE-earlier.log")
+skipped = set()
+if os.path.exists(rv):
+    for l in open(rv):
+        if l.startswith(("SKIP", "INVALID")):
+            for w in l.replace(":", " ").split():
+                if len(w) >= 7 and all(ch in "0123456789abcdef+" for ch in w):
+                    skipped.add(w)
+if os.path.exists(rve):
+    out += [l.rstrip() for l in open(rve) if any(("reverse-of-" + h + " ") in l for h in skipped)]
+out += ["```", "",
+"The other four (c5d9a4e, 5d9bd9c, 42e9a45, 3c8a603) are repairs of this work's last two rounds; for each the owning check was run on the tree as it was just before the repair, which is its exact reverse: C01 reported 65 violations (c5d9a4e), C09 126 (5d9bd9c), C12 2 896 (42e9a45), C14 6 (3c8a603) - section 5.",
+"", "### 8.3 Benign variants (must stay silent)", "",
+"`tools/benign_all.sh` applies each patch under `mutants/benign/` and runs all twenty checks: reworded error messages; call depth limit 3000, evaluation nesting 30000 and array fill limit 1 500 000 (all inside the bands); object keys printed and iterated in reverse-sorted instead of sorted order; print assembling its line and writing it once, slices.Sort for the keys; a regex cache keyed by pattern text and padding that grows the array once; the sixth round's constants and wording (parser nesting bound 120 000, huge-index threshold 2^53, reworded diagnostics).",
 "", "```"]
 bn = os.path.join(R, "seeded", "BENIGN.log")
 if os.path.exists(bn):
